@@ -180,12 +180,12 @@ def install(sut):
     }
     for meth, pred in posts.items():
         cond, err = _post("post:Sequence.%s" % meth, pred)
-        setattr(S, meth, icontract.ensure(cond, error=err)(getattr(S, meth)))
+        setattr(S, meth, icontract.ensure(cond, error=err, enabled=True)(getattr(S, meth)))
         INSTALLED.append("post:Sequence.%s" % meth)
     for meth in ("swapRes", "swapRandChargeRes", "full_shuffle", "permute_block_swap", "permute_cluster_charges"):
-        setattr(S, meth, icontract.ensure(move_result_ok, error=_move_err)(getattr(S, meth)))
+        setattr(S, meth, icontract.ensure(move_result_ok, error=_move_err, enabled=True)(getattr(S, meth)))
     INSTALLED.append("post:move.rearrangement")
-    icontract.invariant(sequence_state_ok, error=_inv_error)(S)
+    icontract.invariant(sequence_state_ok, error=_inv_error, enabled=True)(S)
     INSTALLED.append("inv:Sequence.state")
     S._lcverif_contracts = True
 
